@@ -20,11 +20,11 @@ def sh(cmd, cwd=None, timeout=1800, env=None):
     return p.returncode, p.stdout, p.stderr
 
 
-def scratch_copy(patch):
+def scratch_copy(patch, commit="HEAD"):
     base = os.environ.get("VERIF_SCRATCH") or "/var/tmp/verif-scratch-%d" % os.getpid()
     os.makedirs(base, exist_ok=True)
     d = os.path.join(base, "repo-%d" % int(time.time() * 1000))
-    rc, o, e = sh("git -C /repo worktree add -q --detach %s HEAD" % d)
+    rc, o, e = sh("git -C /repo worktree add -q --detach %s %s" % (d, commit))
     if rc != 0:
         raise RuntimeError(e)
     if patch:
@@ -39,6 +39,10 @@ def drop(d):
     sh("git -C /repo worktree remove --force %s" % d)
     shutil.rmtree(d, ignore_errors=True)
     sh("git -C /repo worktree prune")
+    try:
+        os.rmdir(os.path.dirname(d))
+    except OSError:
+        pass
 
 
 def verify(src, pid, patch="patch.diff", demo="demo.py"):
@@ -67,7 +71,11 @@ def verify(src, pid, patch="patch.diff", demo="demo.py"):
 
 def run_checks(seeded_dir, ids=None, n=None):
     patch = os.path.join(seeded_dir, "patch.diff")
-    d = scratch_copy(patch)
+    commit = "HEAD"
+    mp = os.path.join(seeded_dir, "meta.json")
+    if os.path.exists(mp):
+        commit = json.load(open(mp)).get("applies_only_to_commit") or "HEAD"
+    d = scratch_copy(patch, commit)
     res = {}
     try:
         for pid in (ids or IDS):
